@@ -294,6 +294,9 @@ class PrefixExpression(FilterExpression):
         super().__init__()
 
     def __str__(self) -> str:
+        if isinstance(self.right, InfixExpression) and not self.right.logical:
+            # `!` binds more tightly than a comparison.
+            return f"{self.operator}({self.right})"
         return f"{self.operator}{self.right}"
 
     def __eq__(self, other: object) -> bool:
@@ -342,7 +345,19 @@ class InfixExpression(FilterExpression):
     def __str__(self) -> str:
         if self.logical:
             return f"({self.left} {self.operator} {self.right})"
-        return f"{self.left} {self.operator} {self.right}"
+        return (
+            f"{self._operand(self.left)} {self.operator} {self._operand(self.right)}"
+        )
+
+    @staticmethod
+    def _operand(expr: FilterExpression) -> str:
+        # A comparison or a negation that is an operand of a comparison was
+        # written in parentheses, and needs them to be read back the same way.
+        if isinstance(expr, PrefixExpression) or (
+            isinstance(expr, InfixExpression) and not expr.logical
+        ):
+            return f"({expr})"
+        return str(expr)
 
     def __eq__(self, other: object) -> bool:
         return (
